@@ -25,15 +25,19 @@ using namespace vt;
 #if defined(VT_SIMD) || defined(VT_C03_ALIGNED)
 #define QH glm::aligned_highp
 #define QL glm::aligned_lowp
+#define QM glm::aligned_mediump
 #else
 #define QH glm::packed_highp
 #define QL glm::packed_highp   /* reference for the lowp entries: the full-precision generic code */
+#define QM glm::packed_highp   /* mediump must be the full-precision code as well */
 #endif
 #define TY typename S::f32
 #define V4(a) in_vec<4, TY, QH>(c, a)
 #define V3(a) in_vec<3, TY, QH>(c, a)
 #define L4(a) in_vec<4, TY, QL>(c, a)
 #define M4(a) in_mat<4, 4, TY, QH>(c, a)
+#define MV4(a) in_vec<4, TY, QM>(c, a)
+#define MM4(a) in_mat<4, 4, TY, QM>(c, a)
 #define M3(a) in_mat<3, 3, TY, QH>(c, a)
 #define QT(a) in_qua<TY, QH>(c, a)
 #define SC(a) c.template in<TY>(a, 0)
@@ -93,6 +97,18 @@ ENTRY(inversesqrt4) { out_vec(c, glm::inversesqrt(V4(0))); }
 ENTRY(sqrt4_lowp) { out_vec(c, glm::sqrt(L4(0))); }
 ENTRY(inversesqrt4_lowp) { out_vec(c, glm::inversesqrt(L4(0))); }
 ENTRY(div4_lowp) { out_vec(c, L4(0) / L4(1)); }
+// mediump: only lowp may use the hardware reciprocal / rsqrt approximations, so these must equal the pure highp code
+ENTRY(sqrt4_mediump) { out_vec(c, glm::sqrt(MV4(0))); }
+ENTRY(inversesqrt4_mediump) { out_vec(c, glm::inversesqrt(MV4(0))); }
+ENTRY(div4_mediump) { out_vec(c, MV4(0) / MV4(1)); }
+ENTRY(normalize4_mediump) { out_vec(c, glm::normalize(MV4(0))); }
+ENTRY(length4_mediump) { c.out(glm::length(MV4(0))); }
+ENTRY(dot4_mediump) { c.out(glm::dot(MV4(0), MV4(1))); }
+ENTRY(inverse4_mediump) { out_mat(c, glm::inverse(MM4(0))); }
+ENTRY(determinant4_mediump) { c.out(glm::determinant(MM4(0))); }
+ENTRY(m4_mul_m4_mediump) { out_mat(c, MM4(0) * MM4(1)); }
+ENTRY(m4_mul_v4_mediump) { out_vec(c, MM4(0) * MV4(1)); }
+ENTRY(outerProduct4_mediump) { out_mat(c, glm::outerProduct(MV4(0), MV4(1))); }
 // ---- geometric
 ENTRY(dot4) { c.out(glm::dot(V4(0), V4(1))); }
 ENTRY(dot3) { c.out(glm::dot(V3(0), V3(1))); }
